@@ -30,7 +30,8 @@ CONSTANTS MaxNodes,   \* bound on the number of AST nodes (base + overrides)
           SubM,       \* fields holding a nested list of maps
           GFlds,      \* value fields of nested map items
           RFlds,      \* condition fields of nested map items
-          Blocks,     \* block names (a child overrides them in the order b1 < b2 < b3)
+          Blocks,     \* block names (a child overrides them in the order b1 < b2 < h1 < h2)
+          TNames,     \* names under which the extended (base) template is loaded
           Imgs,       \* image names
           LoopLeafs,  \* subset of {"this","idx","first","last"}
           CondOpens,  \* subset of {"if","ife"}
@@ -45,9 +46,9 @@ vars == <<g>>
 \* ---- generator state -----------------------------------------------------
 Frame(t, n) == [t |-> t, n |-> n, a |-> <<>>, b |-> <<>>, el |-> FALSE]
 NoData == [vars |-> <<>>, conds |-> <<>>, lists |-> <<>>, imgs |-> {}, noise |-> FALSE]
-NoTpl == [body |-> <<>>, ext |-> FALSE, ovr |-> <<>>]
+NoTpl == [body |-> <<>>, ext |-> FALSE, ovr |-> <<>>, bn |-> "t1"]
 
-Init == g = [ph |-> "base", st |-> <<Frame("top", "")>>, sz |-> 0, base |-> <<>>, tpl |-> NoTpl, d |-> NoData, todo |-> <<>>]
+Init == g = [ph |-> "base", st |-> <<Frame("top", "")>>, sz |-> 0, base |-> <<>>, bn |-> "t1", tpl |-> NoTpl, d |-> NoData, todo |-> <<>>]
 
 Top == g.st[Len(g.st)]
 Cur == IF Top.el THEN Top.b ELSE Top.a
@@ -63,7 +64,7 @@ Ctx == IF LoopDepth = 0 THEN "top"
        ELSE IF LoopDepth = 1 THEN (IF InnerLoop \in SLists THEN "s" ELSE "m")
        ELSE (IF InnerLoop \in SubS THEN "ss" ELSE "mm")
 
-BlockIdx(n) == CASE n = "b1" -> 1 [] n = "b2" -> 2 [] OTHER -> 3
+BlockIdx(n) == CASE n = "b1" -> 1 [] n = "b2" -> 2 [] n = "h1" -> 3 [] OTHER -> 4
 BaseBlocks(s) == {s[i].n : i \in {j \in 1..Len(s) : s[j].t = "block"}}
 
 \* leaves that may be appended now
@@ -122,7 +123,8 @@ CloseC == /\ g.ph \in {"base", "ovr"} /\ Len(g.st) > 1
 
 StartOvr == /\ AllowExt /\ g.ph = "base" /\ Len(g.st) = 1
             /\ BaseBlocks(Top.a) # {}
-            /\ g' = [g EXCEPT !.ph = "ovr", !.base = Top.a, !.st = <<Frame("top", "")>>]
+            /\ \E bn \in TNames :
+                 g' = [g EXCEPT !.ph = "ovr", !.base = Top.a, !.bn = bn, !.st = <<Frame("top", "")>>]
 
 \* ---- data that matters for a template --------------------------------------
 S(a) == [k |-> "s", v |-> a]
@@ -274,12 +276,12 @@ Choose(s, o, rest) ==
 
 Finish == /\ g.ph \in {"base", "ovr"} /\ Len(g.st) = 1
           /\ g.sz >= 1 /\ g.sz >= MinNodes
-          /\ LET tpl == IF g.ph = "base" THEN [body |-> Top.a, ext |-> FALSE, ovr |-> <<>>]
-                        ELSE [body |-> g.base, ext |-> TRUE, ovr |-> Top.a]
+          /\ LET tpl == IF g.ph = "base" THEN [body |-> Top.a, ext |-> FALSE, ovr |-> <<>>, bn |-> "t1"]
+                        ELSE [body |-> g.base, ext |-> TRUE, ovr |-> Top.a, bn |-> g.bn]
                  todo == Slots(tpl)
              IN g' = [g EXCEPT !.ph = IF todo = <<>> THEN "done" ELSE "data", !.tpl = tpl,
                                !.d = [NoData EXCEPT !.imgs = Used(tpl, {"img"}, Imgs)],
-                               !.todo = todo, !.st = <<Frame("top", "")>>, !.base = <<>>]
+                               !.todo = todo, !.st = <<Frame("top", "")>>, !.base = <<>>, !.bn = "t1"]
 
 Fill == /\ g.ph = "data"
         /\ \E o \in SlotOpts(g.tpl, Head(g.todo)) : g' = Choose(Head(g.todo), o, Tail(g.todo))
@@ -334,7 +336,7 @@ SwapSeq(s, inLoop) ==
      ELSE Nd(x.t, x.n, SwapSeq(x.a, inLoop \/ x.t = "each"), SwapSeq(x.b, inLoop \/ x.t = "each"))]
 Inv_Dual ==
   Done => RenderRaw(T, D) =
-          RenderRaw([body |-> SwapSeq(T.body, FALSE), ext |-> T.ext, ovr |-> SwapSeq(T.ovr, FALSE)],
+          RenderRaw([body |-> SwapSeq(T.body, FALSE), ext |-> T.ext, ovr |-> SwapSeq(T.ovr, FALSE), bn |-> T.bn],
                     [D EXCEPT !.conds = [n \in Conds |-> ~(n \in DOMAIN D.conds /\ D.conds[n])]])
 
 \* a block without inheritance is transparent; a child without overrides renders as its base;
@@ -343,7 +345,7 @@ RECURSIVE Flat(_)
 Flat(s) == IF s = <<>> THEN <<>>
            ELSE LET h == Head(s) IN (IF h.t = "block" THEN Flat(h.a) ELSE <<Nd(h.t, h.n, Flat(h.a), Flat(h.b))>>) \o Flat(Tail(s))
 Inv_Blocks ==
-  Done => /\ RenderRaw(T, D) = RenderRaw([body |-> Flat(Resolve(T)), ext |-> FALSE, ovr |-> <<>>], D)
+  Done => /\ RenderRaw(T, D) = RenderRaw([body |-> Flat(Resolve(T)), ext |-> FALSE, ovr |-> <<>>, bn |-> "t1"], D)
           /\ (T.ext /\ T.ovr = <<>>) => RenderRaw(T, D) = RenderRaw([T EXCEPT !.ext = FALSE], D)
 
 \* a loop renders as the concatenation of the loops over the one-item lists (index and flags aside),
@@ -364,11 +366,35 @@ Inv_LoopHom ==
 Act_Compositional ==
   [][(g.ph = "base" /\ g'.ph = "base" /\ Len(g'.st) = 1 /\ Len(g'.st[1].a) = Len(g.st[1].a) + 1) =>
        LET x == g'.st[1].a[Len(g'.st[1].a)]
-           t0 == [body |-> g.st[1].a, ext |-> FALSE, ovr |-> <<>>]
-           t1 == [body |-> g'.st[1].a, ext |-> FALSE, ovr |-> <<>>]
+           t0 == [body |-> g.st[1].a, ext |-> FALSE, ovr |-> <<>>, bn |-> "t1"]
+           t1 == [body |-> g'.st[1].a, ext |-> FALSE, ovr |-> <<>>, bn |-> "t1"]
        IN \A d \in DataFor(t1) :
             /\ RenderRaw(t1, d) = RenderRaw(t0, d) \o RNode(x, d, <<>>)
             /\ x.t = "lit" => RNode(x, d, <<>>) = <<"L:" \o x.n>>]_vars
+
+\* values are opaque: a value acts on the result only as the token inserted for it and, where it is
+\* used as a condition, through its truthiness. Replacing every truthy value of the data by the plain
+\* text p1 changes exactly the inserted tokens - whatever a value looks like (directive text, the
+\* placeholder of another supplied variable or field), nothing inside it is interpreted.
+Opq(v) == IF Truthy(v) THEN "p1" ELSE v
+RECURSIVE OpqItem(_), OpqList(_)
+OpqList(l) == [i \in 1..Len(l) |-> OpqItem(l[i])]
+OpqItem(it) ==
+  IF it.k = "s" THEN S(Opq(it.v))
+  ELSE M([n \in DOMAIN it.f |-> IF it.f[n].k = "v" THEN V(Opq(it.f[n].v)) ELSE L(OpqList(it.f[n].l))])
+OpqData(d) == [d EXCEPT !.vars = [n \in DOMAIN d.vars |-> Opq(d.vars[n])],
+                        !.lists = [n \in DOMAIN d.lists |-> OpqList(d.lists[n])]]
+OpqTok(t) == IF \E v \in AllVals : Truthy(v) /\ t = "V:" \o v THEN "V:p1" ELSE t
+Inv_Opaque ==
+  Done => LET out == RenderRaw(T, D)
+          IN RenderRaw(T, OpqData(D)) = [i \in 1..Len(out) |-> OpqTok(out[i])]
+
+\* quoted names are opaque as well: they are only compared for equality, so renaming the blocks and
+\* the extended template (injectively, here: identifiers <-> free text) changes nothing
+RenName(n) == CASE n = "b1" -> "h2" [] n = "h1" -> "b1" [] n = "h2" -> "h1" [] n = "t1" -> "t2" [] n = "t2" -> "t1" [] OTHER -> n
+RenBlocks(s) == [i \in 1..Len(s) |-> IF s[i].t = "block" THEN [s[i] EXCEPT !.n = RenName(@)] ELSE s[i]]
+Inv_Names ==
+  Done => RenderRaw(T, D) = RenderRaw([body |-> RenBlocks(T.body), ext |-> T.ext, ovr |-> RenBlocks(T.ovr), bn |-> RenName(T.bn)], D)
 
 \* the data built one name at a time are exactly elements of the set DataFor(tpl)
 Inv_Data == Done => D \in DataFor(T)
